@@ -25,7 +25,7 @@ def roots_of(fn, t):
 
     def place(pl, depth):
         flds = place_fields(pl)
-        if pl['local'] == 1 and flds:
+        if fn.alias_root(pl['local']) == 1 and flds:
             fields.add(flds[0])
             return
         local(pl['local'], depth)
